@@ -35,7 +35,7 @@ def cond(rng):
     return c, (l, op, r)
 
 
-CLOSERS = ['GROUP BY a', 'ORDER BY a DESC', 'LIMIT 5', 'UNION SELECT 1', 'UNION ALL SELECT 1', 'EXCEPT SELECT 2', 'HAVING x > 1', 'RETURNING id', 'INTO tmp', None]
+CLOSERS = ['UNION SELECT y FROM u WHERE q1 = 3', 'EXCEPT SELECT y FROM u WHERE q2 > 1 ORDER BY y', 'UNION ALL SELECT y FROM u WHERE q3 = 1 AND q4 = 2 UNION SELECT z FROM v WHERE q5 = 5', 'GROUP BY a', 'ORDER BY a DESC', 'LIMIT 5', 'UNION SELECT 1', 'UNION ALL SELECT 1', 'EXCEPT SELECT 2', 'HAVING x > 1', 'RETURNING id', 'INTO tmp', None]
 
 
 def nodes_of(stmt, cls):
@@ -65,6 +65,13 @@ def check_where(ctx, rng):
     ok = any(s.rstrip() .upper().startswith('WHERE') and s.rstrip()[5:].strip() == c for s in ws)
     if not ok:
         ctx.fail('Where node does not span exactly WHERE … up to the next closing clause', text, observed=ws, required='WHERE ' + c)
+    if closer and ' WHERE ' in closer:
+        # every further WHERE at the same level must head a Where node of its own
+        import re
+        for m in re.finditer(r'WHERE (q\d = \d AND q\d = \d|q\d = \d|q\d > \d)', closer):
+            if not any(x.rstrip().upper().startswith('WHERE') and x.rstrip()[5:].strip() == m.group(1) for x in ws):
+                ctx.fail('a later WHERE clause at the same level is not covered by its own Where node', text, observed=ws, required='WHERE ' + m.group(1))
+                break
     cmps = nodes_of(stmt, sql.Comparison)
     if not any(str(x.left) == l and str(x.right) == r for x in cmps):
         ctx.fail('no Comparison with the written operands', text, observed=[(str(x.left), str(x.right)) for x in cmps], required=[l, r])
